@@ -893,3 +893,116 @@ fn normalize_variable(variable: &str) -> &str {
 fn is_variable(term: &str) -> bool {
     term.starts_with('?') || term.starts_with('$')
 }
+
+// ---------------------------------------------------------------------------
+// C17 verification hooks (add-only; compiled only with `--cfg kolibrie_verif`;
+// no behaviour change). They expose (a) how `parse_request` classified a
+// request and where the parser reported its error, and (b) `format_parse_error`
+// for an arbitrary error slice, for the function-level correspondence stream.
+// ---------------------------------------------------------------------------
+#[cfg(kolibrie_verif)]
+#[derive(Clone, Debug, Default)]
+pub struct VerifC17ParseInfo {
+    /// "select" | "update" | "noop" | "err" | "trailing" | "incomplete"
+    pub kind: &'static str,
+    pub prefixes: Vec<(String, String)>,
+    pub model_decls: usize,
+    pub neural_relation_decls: usize,
+    pub train_decls: usize,
+    pub has_rule: bool,
+    pub has_ml_predict: bool,
+    /// Byte position of the parser's error slice inside `input`
+    /// (None when the slice does not lie inside `input`, e.g. a static "").
+    pub err_start: Option<usize>,
+    pub err_len: usize,
+    pub err_code: String,
+}
+
+#[cfg(kolibrie_verif)]
+pub fn verif_c17_parse_info(input: &str, allow_data_aliases: bool) -> VerifC17ParseInfo {
+    let parsed = if allow_data_aliases {
+        parse_combined_query_with_options(input, true)
+    } else {
+        parse_combined_query(input)
+    };
+    let mut info = VerifC17ParseInfo::default();
+    match parsed {
+        Ok((remaining, combined)) => {
+            if !remaining.trim().is_empty() {
+                info.kind = "trailing";
+                return info;
+            }
+            info.kind = match combined.sparql.as_ref() {
+                Some(SparqlOperation::Select(_)) => "select",
+                Some(SparqlOperation::Update(_)) => "update",
+                None => "noop",
+            };
+            let mut prefixes: Vec<(String, String)> = combined.prefixes.clone().into_iter().collect();
+            prefixes.sort();
+            info.prefixes = prefixes;
+            info.model_decls = combined.model_decls.len();
+            info.neural_relation_decls = combined.neural_relation_decls.len();
+            info.train_decls = combined.train_neural_relation_decls.len();
+            info.has_rule = combined.rule.is_some();
+            info.has_ml_predict = combined.ml_predict.is_some();
+            info
+        }
+        Err(nom::Err::Error(e)) | Err(nom::Err::Failure(e)) => {
+            info.kind = "err";
+            let base = input.as_ptr() as usize;
+            let at = e.input.as_ptr() as usize;
+            if at >= base && at + e.input.len() <= base + input.len() {
+                info.err_start = Some(at - base);
+            }
+            info.err_len = e.input.len();
+            info.err_code = format!("{:?}", e.code);
+            info
+        }
+        Err(nom::Err::Incomplete(_)) => {
+            info.kind = "incomplete";
+            info
+        }
+    }
+}
+
+/// `format_parse_error(input, e)` for an error slice chosen by the caller: `slice_start = Some(p)`
+/// passes the sub-slice `input[p .. p + slice_len]` itself (both ends must be character
+/// boundaries), `None` passes a slice of `slice_len` bytes that lies outside `input`.
+#[cfg(kolibrie_verif)]
+pub fn verif_c17_format_parse_error(
+    input: &str,
+    slice_start: Option<usize>,
+    slice_len: usize,
+    code: u8,
+) -> String {
+    let filler = "x".repeat(slice_len);
+    let kind = match code {
+        0 => nom::error::ErrorKind::Tag,
+        1 => nom::error::ErrorKind::Char,
+        2 => nom::error::ErrorKind::Alt,
+        3 => nom::error::ErrorKind::TakeWhile1,
+        4 => nom::error::ErrorKind::Many1,
+        5 => nom::error::ErrorKind::Eof,
+        _ => nom::error::ErrorKind::Verify,
+    };
+    let error_pos: &str = match slice_start {
+        Some(start) => &input[start..start + slice_len],
+        None => filler.as_str(),
+    };
+    format_parse_error(input, nom::Err::Error(nom::error::Error::new(error_pos, kind)))
+}
+
+// ---- verif hooks C03 ----
+// Add-only wrapper compiled only with `--cfg kolibrie_verif`; no behaviour change.
+// Lets the C03 harness run the update executor on an operation tree that the string parser
+// would reject (for example a blank node in a DELETE template), so that the executor's own
+// error path (raised during template instantiation, before any mutation) is exercised.
+#[cfg(kolibrie_verif)]
+pub fn verif_c03_execute_update_operation(
+    operation: &UpdateOperation<'_>,
+    database: &mut SparqlDatabase,
+) -> Result<UpdateSummary, String> {
+    let prefixes = database.prefixes.clone();
+    execute_update_operation(operation, &prefixes, database)
+}
+// ---- end verif hooks C03 ----
